@@ -1,1 +1,329 @@
-From Lou Require Import Model.Reader.
+(* Proofs of the reader laws stated in Properties/C16.v *)
+From Coq Require Import List ZArith Bool Permutation Lia.
+From Lou Require Import Gen.GConst Model.Reader.
+Import ListNotations.
+Local Open Scope Z_scope.
+
+(* ------------------------------------------------------------------ lines *)
+Lemma lines_aux_cr : forall cs cur n,
+  lines_aux (filter (fun c => negb (c =? 13)) cs) cur n = lines_aux cs cur n.
+Proof.
+  induction cs as [|c cs IH]; intros cur n; [reflexivity|].
+  cbn [filter lines_aux].
+  destruct (c =? 13) eqn:E; cbn [negb].
+  - apply IH.
+  - cbn [lines_aux]. rewrite E.
+    destruct ((c =? 10) || (n >=? MAXSTRING - 1)).
+    + rewrite IH. reflexivity.
+    + apply IH.
+Qed.
+
+Lemma cr_ignored_l : forall cs, lines_of (filter (fun c => negb (c =? 13)) cs) = lines_of cs.
+Proof. intros cs. unfold lines_of. apply lines_aux_cr. Qed.
+
+Lemma filter_crlf : forall cs, Forall (fun c => c <> 13) cs ->
+  filter (fun c => negb (c =? 13)) (crlf cs) = cs.
+Proof.
+  induction cs as [|c cs IH]; intros HF; [reflexivity|].
+  inversion HF as [|c0 cs0 Hc HF']; subst.
+  unfold crlf in *. cbn [flat_map]. rewrite filter_app. rewrite (IH HF').
+  destruct (c =? 10) eqn:E.
+  - apply Z.eqb_eq in E. subst c. cbn [filter].
+    change (13 =? 13) with true. change (10 =? 13) with false. cbn [negb app]. reflexivity.
+  - cbn [filter]. replace (c =? 13) with false by (symmetry; apply Z.eqb_neq; exact Hc).
+    cbn [negb app]. reflexivity.
+Qed.
+
+Lemma crlf_eq_l : forall cs, Forall (fun c => c <> 13) cs -> lines_of (crlf cs) = lines_of cs.
+Proof.
+  intros cs HF. rewrite <- (cr_ignored_l (crlf cs)). rewrite (filter_crlf cs HF). reflexivity.
+Qed.
+
+(* ------------------------------------------------------------------ decode *)
+Lemma pairs_le_flat : forall cs, pairs_le (flat_map (fun c => [c mod 256; c / 256]) cs) = cs.
+Proof.
+  induction cs as [|c cs IH]; [reflexivity|].
+  cbn [flat_map app pairs_le]. rewrite IH. f_equal.
+  pose proof (Z.div_mod c 256) as Hdm. lia.
+Qed.
+
+Lemma pairs_be_flat : forall cs, pairs_be (flat_map (fun c => [c / 256; c mod 256]) cs) = cs.
+Proof.
+  induction cs as [|c cs IH]; [reflexivity|].
+  cbn [flat_map app pairs_be]. rewrite IH. f_equal.
+  pose proof (Z.div_mod c 256) as Hdm. lia.
+Qed.
+
+Lemma utf16_eq_l : forall cs, Forall (fun c => 0 <= c < 128) cs -> (2 <= length cs)%nat ->
+  decode (utf16le cs) = DChars cs /\ decode (utf16be cs) = DChars cs /\ decode cs = DChars cs.
+Proof.
+  intros cs HF Hlen. split; [|split].
+  - unfold utf16le, decode.
+    change ((255 =? 254) && (254 =? 255)) with false.
+    change ((255 =? 255) && (254 =? 254)) with true. cbv iota.
+    rewrite pairs_le_flat. reflexivity.
+  - unfold utf16be, decode.
+    change ((254 =? 254) && (255 =? 255)) with true. cbv iota.
+    rewrite pairs_be_flat. reflexivity.
+  - destruct cs as [|c0 [|c1 r]]; cbn [length] in Hlen; try lia.
+    inversion HF as [|x0 l0 H0 HF0]; subst.
+    inversion HF0 as [|x1 l1 H1 HF1]; subst.
+    unfold decode.
+    replace (c0 =? 254) with false by (symmetry; apply Z.eqb_neq; lia).
+    replace (c0 =? 255) with false by (symmetry; apply Z.eqb_neq; lia).
+    replace (c0 <? 128) with true by (symmetry; apply Z.ltb_lt; lia).
+    replace (c1 <? 128) with true by (symmetry; apply Z.ltb_lt; lia).
+    reflexivity.
+Qed.
+
+(* ------------------------------------------------------------------ tokens *)
+Lemma tokens_aux_ws_app : forall ws b, Forall (fun c => c <= 32) ws ->
+  tokens_aux (ws ++ b) [] = tokens_aux b [].
+Proof.
+  induction ws as [|w ws IH]; intros b HF; [reflexivity|].
+  inversion HF as [|w0 ws0 Hw HF']; subst.
+  cbn [app tokens_aux].
+  replace (w <=? 32) with true by (symmetry; apply Z.leb_le; exact Hw).
+  apply IH. exact HF'.
+Qed.
+
+Lemma tokens_aux_ws_nil : forall ws, Forall (fun c => c <= 32) ws -> tokens_aux ws [] = [].
+Proof.
+  intros ws HF. rewrite <- (app_nil_r ws). rewrite (tokens_aux_ws_app ws [] HF). reflexivity.
+Qed.
+
+Lemma tokens_aux_trailing : forall ws, Forall (fun c => c <= 32) ws ->
+  forall l cur, tokens_aux (l ++ ws) cur = tokens_aux l cur.
+Proof.
+  intros ws HF. induction l as [|c l IH]; intros cur.
+  - cbn [app]. destruct ws as [|w ws']; [reflexivity|].
+    inversion HF as [|w0 ws0 Hw HF']; subst.
+    cbn [tokens_aux].
+    replace (w <=? 32) with true by (symmetry; apply Z.leb_le; exact Hw).
+    rewrite (tokens_aux_ws_nil ws' HF'). destruct cur; reflexivity.
+  - cbn [app tokens_aux]. destruct (c <=? 32).
+    + destruct cur; rewrite IH; reflexivity.
+    + apply IH.
+Qed.
+
+Lemma trailing_ws_l : forall l ws, Forall (fun c => c <= 32) ws -> tokens (l ++ ws) = tokens l.
+Proof. intros l ws HF. unfold tokens. apply tokens_aux_trailing. exact HF. Qed.
+
+Lemma tokens_aux_inner : forall b ws, Forall (fun c => c <= 32) ws -> ws <> [] ->
+  forall a cur, tokens_aux (a ++ ws ++ b) cur = tokens_aux (a ++ [32] ++ b) cur.
+Proof.
+  intros b ws HF Hne. induction a as [|c a IH]; intros cur.
+  - destruct ws as [|w ws']; [congruence|].
+    inversion HF as [|w0 ws0 Hw HF']; subst.
+    cbn [app tokens_aux].
+    replace (w <=? 32) with true by (symmetry; apply Z.leb_le; exact Hw).
+    change (32 <=? 32) with true.
+    rewrite (tokens_aux_ws_app ws' b HF'). reflexivity.
+  - change ((c :: a) ++ ws ++ b) with (c :: (a ++ ws ++ b)).
+    change ((c :: a) ++ [32] ++ b) with (c :: (a ++ [32] ++ b)).
+    cbn [tokens_aux]. destruct (c <=? 32).
+    + destruct cur; rewrite IH; reflexivity.
+    + apply IH.
+Qed.
+
+Lemma inner_ws_l : forall a b ws, Forall (fun c => c <= 32) ws -> ws <> [] ->
+  tokens (a ++ ws ++ b) = tokens (a ++ [32] ++ b).
+Proof. intros a b ws HF Hne. unfold tokens. apply tokens_aux_inner; assumption. Qed.
+
+(* ------------------------------------------------------------------ dots *)
+Lemma dot_of_pos : forall c d, dot_of c = Some d -> 0 < d.
+Proof.
+  intros c d H. unfold dot_of in H.
+  destruct ((49 <=? c) && (c <=? 57)) eqn:E1.
+  { apply andb_true_iff in E1. destruct E1 as [Ea Eb]. apply Z.leb_le in Ea.
+    inversion H; subst. rewrite Z.shiftl_1_l. apply Z.pow_pos_nonneg; lia. }
+  destruct ((97 <=? c) && (c <=? 102)) eqn:E2.
+  { apply andb_true_iff in E2. destruct E2 as [Ea Eb]. apply Z.leb_le in Ea.
+    inversion H; subst. rewrite Z.shiftl_1_l. apply Z.pow_pos_nonneg; lia. }
+  destruct ((65 <=? c) && (c <=? 70)) eqn:E3.
+  { apply andb_true_iff in E3. destruct E3 as [Ea Eb]. apply Z.leb_le in Ea.
+    inversion H; subst. rewrite Z.shiftl_1_l. apply Z.pow_pos_nonneg; lia. }
+  discriminate.
+Qed.
+
+Lemma lor_pos_nz : forall cell d, 0 < d -> Z.lor cell d <> 0.
+Proof.
+  intros cell d Hd H. apply Z.lor_eq_0_iff in H. lia.
+Qed.
+
+Lemma pd_perm : forall d1 d2, Permutation d1 d2 ->
+  Forall (fun c => dot_of c <> None) d1 ->
+  forall cell started acc, (started = true -> cell <> 0) ->
+  parse_dots_aux d1 cell started acc = parse_dots_aux d2 cell started acc.
+Proof.
+  induction 1 as [|x l l' HP IH|x y l|l l' l'' HP1 IH1 HP2 IH2];
+    intros HF cell started acc Hinv.
+  - reflexivity.
+  - inversion HF as [|x0 l0 Hx HF']; subst.
+    cbn [parse_dots_aux].
+    destruct (dot_of x) as [d|] eqn:Ed; [|congruence].
+    destruct (started && (cell =? 0)); [reflexivity|].
+    destruct (negb (Z.land cell d =? 0)); [reflexivity|].
+    apply IH; [exact HF'|]. intros _. apply lor_pos_nz. eapply dot_of_pos; eassumption.
+  - inversion HF as [|y0 l0 Hy HF0]; subst.
+    inversion HF0 as [|x0 l1 Hx HF1]; subst.
+    destruct (dot_of x) as [dx|] eqn:Edx; [|congruence].
+    destruct (dot_of y) as [dy|] eqn:Edy; [|congruence].
+    pose proof (dot_of_pos _ _ Edx) as Hdx.
+    pose proof (dot_of_pos _ _ Edy) as Hdy.
+    assert (Hs : started && (cell =? 0) = false).
+    { destruct started; [|reflexivity]. cbn [andb]. apply Z.eqb_neq. apply Hinv. reflexivity. }
+    assert (Hnx : (Z.lor cell dx =? 0) = false) by (apply Z.eqb_neq; apply lor_pos_nz; exact Hdx).
+    assert (Hny : (Z.lor cell dy =? 0) = false) by (apply Z.eqb_neq; apply lor_pos_nz; exact Hdy).
+    cbn [parse_dots_aux]. rewrite Edx, Edy, Hs. cbn [andb]. rewrite Hnx, Hny.
+    rewrite (Z.land_lor_distr_l cell dy dx), (Z.land_lor_distr_l cell dx dy).
+    rewrite (Z.land_comm dy dx).
+    replace (Z.lor (Z.lor cell dy) dx) with (Z.lor (Z.lor cell dx) dy)
+      by (rewrite <- !Z.lor_assoc; f_equal; apply Z.lor_comm).
+    destruct (Z.land cell dy =? 0) eqn:E1; destruct (Z.land cell dx =? 0) eqn:E2; cbn [negb].
+    + apply Z.eqb_eq in E1. apply Z.eqb_eq in E2. rewrite E1, E2. reflexivity.
+    + apply Z.eqb_neq in E2.
+      replace (Z.lor (Z.land cell dx) (Z.land dx dy) =? 0) with false; [reflexivity|].
+      symmetry. apply Z.eqb_neq. intros H0. apply Z.lor_eq_0_iff in H0. tauto.
+    + apply Z.eqb_neq in E1.
+      replace (Z.lor (Z.land cell dy) (Z.land dx dy) =? 0) with false; [reflexivity|].
+      symmetry. apply Z.eqb_neq. intros H0. apply Z.lor_eq_0_iff in H0. tauto.
+    + reflexivity.
+  - rewrite (IH1 HF cell started acc Hinv).
+    apply IH2; [|exact Hinv].
+    eapply Permutation_Forall; eassumption.
+Qed.
+
+Lemma dots_perm_l : forall d1 d2, Permutation d1 d2 ->
+  Forall (fun c => dot_of c <> None) d1 -> parse_dots d1 = parse_dots d2.
+Proof.
+  intros d1 d2 HP HF. unfold parse_dots. apply pd_perm; [exact HP|exact HF|].
+  intros Habs. discriminate.
+Qed.
+
+(* ------------------------------------------------------------------ chars *)
+(* one step of parse_chars_aux: the character pushed and the rest of the token *)
+Definition step (tok : list Z) : option (Z * list Z) :=
+  match tok with
+  | [] => None
+  | c :: r =>
+      if c =? 92 then
+        match r with
+        | 92 :: r' => Some (92, r')
+        | 101 :: r' => Some (27, r')
+        | 102 :: r' => Some (12, r')
+        | 110 :: r' => Some (10, r')
+        | 114 :: r' => Some (13, r')
+        | 115 :: r' => Some (32, r')
+        | 116 :: r' => Some (9, r')
+        | 118 :: r' => Some (11, r')
+        | 119 :: r' => Some (LOU_ENDSEGMENT, r')
+        | 120 :: a :: b :: c' :: d :: r' =>
+            match hex4 a b c' d with Some v => Some (v, r') | None => None end
+        | _ => None
+        end
+      else if c <? 128 then Some (c, r)
+      else if (192 <=? c) && (c <? 224) then
+        match r with
+        | c1 :: r' => if (128 <=? c1) && (c1 <? 192) then Some ((c - 192) * 64 + (c1 - 128), r') else None
+        | _ => None
+        end
+      else if (224 <=? c) && (c <? 240) then
+        match r with
+        | c1 :: c2 :: r' =>
+            if (128 <=? c1) && (c1 <? 192) && (128 <=? c2) && (c2 <? 192)
+            then Some (((c - 224) * 64 + (c1 - 128)) * 64 + (c2 - 128), r') else None
+        | _ => None
+        end
+      else None
+  end.
+
+Ltac case_goal :=
+  repeat match goal with
+  | |- context [match ?x with _ => _ end] =>
+      tryif is_var x then destruct x else destruct x eqn:?
+  end.
+
+Ltac case_hyp H :=
+  repeat match type of H with
+  | context [match ?x with _ => _ end] =>
+      tryif is_var x then destruct x else destruct x eqn:?
+  end.
+
+Lemma pca_unfold : forall f tok acc,
+  parse_chars_aux (S f) tok acc =
+  match tok with
+  | [] => Some (rev acc)
+  | _ => match step tok with
+         | Some (v, r') => parse_chars_aux f r' (v :: acc)
+         | None => None
+         end
+  end.
+Proof.
+  intros f tok acc. destruct tok as [|c r]; [reflexivity|].
+  cbn [parse_chars_aux]. unfold step.
+  case_goal; reflexivity.
+Qed.
+
+Lemma step_length : forall tok v r', step tok = Some (v, r') -> (length r' < length tok)%nat.
+Proof.
+  intros tok v r' H. unfold step in H.
+  case_hyp H; try discriminate; inversion H; subst; cbn [length]; lia.
+Qed.
+
+Lemma step_app : forall tok v r' rest, step tok = Some (v, r') ->
+  step (tok ++ rest) = Some (v, r' ++ rest).
+Proof.
+  intros tok v r' rest H. unfold step in H.
+  case_hyp H; try discriminate; inversion H; subst; cbn [app]; unfold step;
+    repeat match goal with
+    | E : ?b = _ |- context [?b] => rewrite E
+    end; reflexivity.
+Qed.
+
+Lemma pca_fuel : forall f1 f2 tok acc, (length tok < f1)%nat -> (length tok < f2)%nat ->
+  parse_chars_aux f1 tok acc = parse_chars_aux f2 tok acc.
+Proof.
+  induction f1 as [|f1 IH]; intros f2 tok acc H1 H2; [lia|].
+  destruct f2 as [|f2]; [lia|].
+  rewrite !pca_unfold. destruct tok as [|c r]; [reflexivity|].
+  destruct (step (c :: r)) as [[v r']|] eqn:Es; [|reflexivity].
+  apply step_length in Es. apply IH; lia.
+Qed.
+
+Lemma pca_prefix : forall f pre acc p, parse_chars_aux f pre acc = Some p ->
+  forall rest f', (length (pre ++ rest) < f')%nat ->
+  parse_chars_aux f' (pre ++ rest) acc = parse_chars_aux (S (length rest)) rest (rev p).
+Proof.
+  induction f as [|f IH]; intros pre acc p H rest f' Hf'; [discriminate|].
+  rewrite pca_unfold in H. destruct pre as [|c r].
+  - inversion H; subst. rewrite rev_involutive. cbn [app] in *. apply pca_fuel; lia.
+  - destruct (step (c :: r)) as [[v r']|] eqn:Es; [|discriminate].
+    destruct f' as [|f']; [lia|].
+    rewrite pca_unfold.
+    pose proof (step_app _ _ _ rest Es) as Es'.
+    pose proof (step_length _ _ _ Es) as Hl.
+    rewrite Es'. change ((c :: r) ++ rest) with (c :: (r ++ rest)).
+    apply IH; [exact H|].
+    rewrite app_length in *. cbn [length] in *. lia.
+Qed.
+
+Lemma hex_escape_l : forall pre post c p, 32 < c < 128 -> c <> 92 ->
+  parse_chars pre = Some p ->
+  forall a b c' d, hex4 a b c' d = Some c ->
+  parse_chars (pre ++ [92; 120; a; b; c'; d] ++ post) = parse_chars (pre ++ [c] ++ post).
+Proof.
+  intros pre post c p Hc Hne Hpre a b c' d Hhex.
+  unfold parse_chars in *.
+  rewrite (pca_prefix _ _ _ _ Hpre ([92; 120; a; b; c'; d] ++ post)) by lia.
+  rewrite (pca_prefix _ _ _ _ Hpre ([c] ++ post)) by lia.
+  rewrite !pca_unfold. cbn [app].
+  assert (E1 : step (92 :: 120 :: a :: b :: c' :: d :: post) = Some (c, post)).
+  { unfold step. change (92 =? 92) with true. cbv iota. rewrite Hhex. reflexivity. }
+  assert (E2 : step (c :: post) = Some (c, post)).
+  { unfold step.
+    replace (c =? 92) with false by (symmetry; apply Z.eqb_neq; exact Hne).
+    replace (c <? 128) with true by (symmetry; apply Z.ltb_lt; lia).
+    reflexivity. }
+  rewrite E1, E2. apply pca_fuel; cbn [length]; lia.
+Qed.
